@@ -1,13 +1,14 @@
-SPECIFICATION Spec
+SPECIFICATION SpecD
 CONSTANTS
   N = 4
   Alphabet <- AlphaCore
   Times <- TimesCore
-  MaxAccepts = 5
+  MaxAccepts = 4
   ForkEpoch <- ForkNever
   PartialWindow = FALSE
+  OverflowGuard = FALSE
   Weaken = "none"
-  KnownGaps = {"partial-sig-outside-slot-window"}
+  KnownGaps = {"partial-sig-outside-slot-window", "slot-time-overflow"}
 PROPERTY Total
 PROPERTY AcceptSound
 INVARIANT StateSound
